@@ -64,6 +64,9 @@ func (c *Check) Rule(id, engine, text string, min int) {
 }
 
 func (c *Check) add(status, construct, pos, how string, inspected int, path []string) *Obligation {
+	if c.curRule == "" {
+		c.Rule("R0", "anchors", "the constructs the rules of this property inspect exist and have the shape the rules were confirmed on", 0)
+	}
 	o := &Obligation{Rule: c.curRule, Construct: construct, Pos: pos, Status: status, How: how, Inspected: inspected, Path: path}
 	c.Obs = append(c.Obs, o)
 	if r := c.Rules[c.curRule]; r != nil {
